@@ -581,13 +581,6 @@ func c07Exec(c vmCase, x *pbt.Ctx) error {
 	return nil
 }
 
-func classPrefix(c refvm.Class) refvm.Class {
-	if i := strings.IndexByte(string(c), ':'); i > 0 {
-		return c[:i]
-	}
-	return c
-}
-
 func TestC07(t *testing.T) {
 	pbt.Run(t, "C07",
 		"programs: 30% arbitrary byte strings of 0..300 bytes, 70% grammar programs (pushes, refunding/stack ops, any opcode on the operands it wants, countdown loops, endless loops of several gas profiles, forward JUMP/JUMPIF, nested CHECKPREDICATE to depth 4 with child limits 0='all remaining'..5000, raw bytes); 0..4 arguments, optional state item; gas limits 0, 1, 2..300, exact need -1/0/+1 (reference), 300..60000, 300000. Oracle: returns with <= 2e6 trace lines; 0<=gasLeft<=limit; PHI=runLimit+stack costs reconstructed from the trace decreases by >=1 per executed instruction in every frame; out-of-gas per reference => run-limit error. Non-trivial = executes a backward jump, a CHECKPREDICATE child or >= 3 refunding pops; distinct by case",
